@@ -23,7 +23,10 @@
         the reparsed document reads back as the abstract document of the original
     C01_main_identical (+ _fragment_identical, _writable), C01_main_deep_equal (+ _fragment_…)
         the reparsed tree IS the original tree (ids, declarations, prefixes), hence deep_equal
-  The tokenizer contract `LexCanon` is a hypothesis (to be discharged by the reference tokenizer).
+    C01_roundtrip, C01_roundtrip_identical, _fragment, _fragment_identical, _writable
+        THE CLOSED LOOP on strings: `parseString` (reference tokenizer, Model/Lex.lean, feeding the builder)
+        of `to_string tree` returns the tree; no tokenizer hypothesis (C01_lexCanon_document / _fragment)
+  The `LexCanon`-parametric versions (C01_main*) hold for ANY tokenizer meeting the contract.
 -/
 import XotModel.Lemmas.Entity
 import XotModel.Lemmas.SerTokensLexTop
@@ -33,6 +36,8 @@ import XotModel.Lemmas.RoundTripTokens
 import XotModel.Lemmas.RoundTripEncode
 import XotModel.Lemmas.RoundTripSerialises
 import XotModel.Lemmas.RoundTripDeepEqual
+import XotModel.Lemmas.LexCanon
+import XotModel.Model.ParseString
 import XotModel.Props.C02
 
 namespace XotModel.Props
@@ -454,5 +459,88 @@ theorem C01_main_fragment_deep_equal (env : Env) (t : Tree) (hr : RepresentableF
   have hv := valid_of_nodeOK t hn
   rw [h3]
   exact (deepEqual_iff_canon t t hv hv).mpr rfl
+
+/-! ### The closed loop: `parse (to_string tree)` on STRINGS
+
+`parseString` (Model/ParseString.lean) = the reference tokenizer (Model/Lex.lean: the Lean model of
+xmlparser, correspondence-checked against the crate's tokenizer by the lex suite) feeding the builder,
+as `Xot::_parse` wires them.  It meets the contract `LexCanon` (Lemmas/LexCanon.lean), so the theorems
+above hold for it without hypothesis. -/
+
+/-- The reference tokenizer meets the contract, in both modes. -/
+theorem C01_lexCanon_document : LexCanon false lexDocument := fun ts h => lexDocument_render_erase ts h
+theorem C01_lexCanon_fragment : LexCanon true lexFragment := fun ts h => lexFragment_render_erase ts h
+
+/-- **C01_roundtrip** (`parse(to_string(doc))`): for every representable document whose default
+    serialisation succeeds, parsing the serialised STRING succeeds and the reparsed document reads
+    back, through the tables the parse leaves, as exactly the abstract document the original reads
+    back as. -/
+theorem C01_roundtrip (env : Env) (t : Tree) (hr : Representable env t = true) (s : Str)
+    (hs : toXmlString env t [] = .ok s) :
+    ∃ p, parseString .document env s = .ok p ∧ p.tree.value = .document ∧
+      decodeNs p.env p.tree.kids = decodeNs env t.kids := by
+  obtain ⟨ts, p, h1, h2, h3, h4⟩ := C01_main env t hr lexDocument C01_lexCanon_document s hs
+  refine ⟨p, ?_, h3, h4⟩
+  simp only [parseString, lexMode, h1]
+  exact h2
+
+/-- **C01_roundtrip_identical**: the reparsed tree IS the original tree — node kinds and order, name
+    ids (expanded names), attribute sets and values, character data, comments, PIs, namespace
+    declarations on the same elements with the same prefix-to-URI bindings — the interning tables are
+    unchanged, and `deep_equal` answers `true`. -/
+theorem C01_roundtrip_identical (env : Env) (t : Tree) (hr : Representable env t = true) (s : Str)
+    (hs : toXmlString env t [] = .ok s) :
+    ∃ p, parseString .document env s = .ok p ∧ p.tree = t ∧ p.env = env ∧ deepEqual p.tree t = true := by
+  obtain ⟨ts, p, h1, h2, h3, h4⟩ := C01_main_identical env t hr lexDocument C01_lexCanon_document s hs
+  obtain ⟨ts', p', k1, k2, k3⟩ := C01_main_deep_equal env t hr lexDocument C01_lexCanon_document s hs
+  rw [h1] at k1
+  cases k1
+  rw [h2] at k2
+  cases k2
+  refine ⟨p, ?_, h3, h4, k3⟩
+  simp only [parseString, lexMode, h1]
+  exact h2
+
+/-- `parse_fragment(to_string(doc))`. -/
+theorem C01_roundtrip_fragment (env : Env) (t : Tree) (hr : RepresentableFragment env t = true) (s : Str)
+    (hs : toXmlString env t [] = .ok s) :
+    ∃ p, parseString .fragment env s = .ok p ∧ p.tree.value = .document ∧
+      decodeNs p.env p.tree.kids = decodeNs env t.kids := by
+  obtain ⟨ts, p, h1, h2, h3, h4⟩ := C01_main_fragment env t hr lexFragment C01_lexCanon_fragment s hs
+  refine ⟨p, ?_, h3, h4⟩
+  simp only [parseString, lexMode, h1]
+  exact h2
+
+theorem C01_roundtrip_fragment_identical (env : Env) (t : Tree) (hr : RepresentableFragment env t = true)
+    (s : Str) (hs : toXmlString env t [] = .ok s) :
+    ∃ p, parseString .fragment env s = .ok p ∧ p.tree = t ∧ p.env = env ∧ deepEqual p.tree t = true := by
+  obtain ⟨ts, p, h1, h2, h3, h4⟩ :=
+    C01_main_fragment_identical env t hr lexFragment C01_lexCanon_fragment s hs
+  obtain ⟨ts', p', k1, k2, k3⟩ := C01_main_fragment_deep_equal env t hr lexFragment C01_lexCanon_fragment s hs
+  rw [h1] at k1
+  cases k1
+  rw [h2] at k2
+  cases k2
+  refine ⟨p, ?_, h3, h4, k3⟩
+  simp only [parseString, lexMode, h1]
+  exact h2
+
+/-- The property as one statement on the tree: a representable document every namespaced name of which
+    has a usable prefix in scope serialises, and the text parses back to the same tree. -/
+theorem C01_roundtrip_writable (env : Env) (t : Tree) (hr : Representable env t = true)
+    (hw : namesWritable env t [] = some true) :
+    ∃ s p, toXmlString env t [] = .ok s ∧ parseString .document env s = .ok p ∧ p.tree = t ∧ p.env = env ∧
+      deepEqual p.tree t = true := by
+  have hfrag : RepresentableFragment env t = true := by
+    simp only [Representable, Bool.and_eq_true] at hr; exact hr.1
+  obtain ⟨s, hs⟩ := (C01_serialises env t hfrag).mpr hw
+  obtain ⟨p, h1, h2, h3, h4⟩ := C01_roundtrip_identical env t hr s hs
+  exact ⟨s, p, hs, h1, h2, h3, h4⟩
+
+/-- Non-vacuity, closed: the document `c01Doc` meets the hypotheses by `decide`, so its serialisation
+    `c01Text` parses back to it. -/
+example : ∃ p, parseString .document c01Env c01Text = .ok p ∧ p.tree = c01Doc ∧ p.env = c01Env ∧
+    deepEqual p.tree c01Doc = true :=
+  C01_roundtrip_identical c01Env c01Doc (by decide) c01Text (by decide)
 
 end XotModel.Props
